@@ -98,6 +98,11 @@ def check(model: Model, rep: Report, tier: str):
     _k4(model, rep)
     _k5(model, rep)
     _k6(model, rep)
+    from .c01 import r7
+    from .common import share_rule
+    share_rule(rep, model, r7, "C05.K7", "an implicit copy made by repeat() keeps the block's own relative schedule: extend() gives all relation-less heads of "
+               "the appended copy ONE chain link, computed before the loop, over all current leaves (= C01.R7); decomposed_operations hands the "
+               "block link to exactly the heads")
 
 
 # ---------------------------------------------------------------------------------------------
